@@ -97,6 +97,11 @@ int main(int argc, char** argv)
                     env[c.item.env] = c.env_value;
                 one(D, c.argv, env);
                 singles++;
+                // the same configuration on a parser that was used before its declaration was complete (the item, or its short
+                // name, is added through a kept reference after usage() and warm-up parses) or that held another declaration
+                Decl Dprev;
+                Dprev.items = { Item::opt("other", "o"), Item::tog("flag", "t") };
+                chk.used_before(ctx, D, Dprev, c.argv, env);
             }
         // every single configuration again as the SECOND parse on one parser object, after each other configuration
         // of the same item (the ranking must not depend on what an earlier parse took from which source)
